@@ -31,6 +31,7 @@ fn main() {
     match cmd {
         "explore" => cmd_explore(&args),
         "replay" => cmd_replay(&args),
+        "diff" => cmd_diff(&args),
         "list" => {
             let prop = arg(&args, "--prop").expect("--prop");
             let thorough = arg(&args, "--tier").as_deref() == Some("thorough");
@@ -148,5 +149,115 @@ fn cmd_replay(args: &[String]) {
     } else {
         println!("VIOLATION property={prop} replay={file}");
         std::process::exit(1);
+    }
+}
+
+/// Differential exploration (C16): every variant of a group must be observationally identical to its base.
+fn cmd_diff(args: &[String]) {
+    let thorough = arg(args, "--tier").as_deref() == Some("thorough");
+    let shard: usize = arg(args, "--shard").map(|s| s.parse().unwrap()).unwrap_or(0);
+    let nshards: usize = arg(args, "--nshards").map(|s| s.parse().unwrap()).unwrap_or(1);
+    let seed: u64 = arg(args, "--seed").map(|s| s.parse().unwrap()).unwrap_or(0);
+    let out = arg(args, "--out");
+    let only = arg(args, "--only");
+    let budget_s: f64 = arg(args, "--budget").map(|s| s.parse().unwrap()).unwrap_or(if thorough { 800.0 } else { 50.0 });
+    let groups = props::gen_c16(thorough);
+    let lim = explore::Limits { bound: arg(args, "--bound").map(|b| if b == "inf" { None } else { Some(b.parse().unwrap()) }).unwrap_or(None), max_execs: if thorough { 400_000 } else { 50_000 } };
+    let t0 = std::time::Instant::now();
+    let mut stats = explore::Stats::default();
+    let mut found: Vec<explore::Found> = Vec::new();
+    let mut sample = None;
+    let mut skipped = 0u64;
+    let mut incomparable = 0u64;
+    let total = groups.len();
+    for (gi, (base, vars)) in groups.into_iter().enumerate() {
+        if (gi + seed as usize) % nshards != shard {
+            continue;
+        }
+        if let Some(o) = &only {
+            if !base.name.contains(o.as_str()) {
+                continue;
+            }
+        }
+        if t0.elapsed().as_secs_f64() > budget_s {
+            skipped += 1;
+            continue;
+        }
+        let mut base = base;
+        base.seed = base.seed.wrapping_add(seed);
+        let base = Arc::new(base);
+        let cb = explore::explore_collect(&base, &lim, &props::project_c16, &mut stats, true);
+        for v in vars {
+            let mut v = v;
+            v.seed = v.seed.wrapping_add(seed);
+            let v = Arc::new(v);
+            let cv = explore::explore_collect(&v, &lim, &props::project_c16, &mut stats, true);
+            let same_shape = cb.by_schedule.len() == cv.by_schedule.len();
+            if !same_shape && !(cb.exhaustive && cv.exhaustive) {
+                incomparable += 1;
+            }
+            stats.premises += cv.by_schedule.len() as u64;
+            if sample.is_none() {
+                if let Some((k, h)) = cv.by_schedule.iter().find(|(k, _)| k.len() >= 2) {
+                    sample = Some(serde_json::json!({"scenario": v.name, "schedule": k, "observable_trace": cv.sample_lines.get(h)}));
+                }
+            }
+            if let Some((sched, why)) = explore::compare_variant(&cb, &cv) {
+                let reference_only = why.starts_with("REFERENCE-ONLY");
+                let (scn_for_replay, lines) = if reference_only {
+                    (base.clone(), cb.sample_lines.get(&cb.by_schedule[&sched]).cloned().unwrap_or_default())
+                } else {
+                    (v.clone(), cv.sample_lines.get(&cv.by_schedule[&sched]).cloned().unwrap_or_default())
+                };
+                // first differing line against the reference run under the same schedule, if it exists there
+                let mut detail = format!("{why}; variant {} vs reference {}", v.name, base.name);
+                if let Some(hb) = cb.by_schedule.get(&sched) {
+                    if let Some(bl) = cb.sample_lines.get(hb) {
+                        for (i, l) in lines.iter().enumerate() {
+                            if bl.get(i) != Some(l) {
+                                detail.push_str(&format!("; first difference at line {i}: erased `{l}` vs direct `{}`", bl.get(i).cloned().unwrap_or_default()));
+                                break;
+                            }
+                        }
+                    }
+                }
+                let (r, _) = explore::run_schedule(&scn_for_replay, &sched);
+                let (r2, _) = explore::run_schedule(&scn_for_replay, &sched);
+                let t1 = explore::canon(&r.trace, &r.raw_ids);
+                let reproduced = explore::hash_trace(&t1) == explore::hash_trace(&explore::canon(&r2.trace, &r2.raw_ids));
+                found.push(explore::Found {
+                    scenario: (*scn_for_replay).clone(),
+                    schedule: sched,
+                    violations: vec![explore::Violation { clause: "C16 erased run equals direct run".into(), detail }],
+                    trace: t1,
+                    reproduced,
+                });
+                break;
+            }
+        }
+        if found.len() >= 3 {
+            break;
+        }
+    }
+    let res = serde_json::json!({
+        "prop": "C16",
+        "tier": if thorough { "thorough" } else { "quick" },
+        "shard": shard,
+        "nshards": nshards,
+        "scenarios_total": total,
+        "bound": lim.bound,
+        "max_execs_per_scenario": lim.max_execs,
+        "skipped_for_time_budget": skipped,
+        "incomparable_pairs": incomparable,
+        "stats": stats,
+        "sample": sample,
+        "found": found,
+        "sigs": serde_json::Value::Null,
+        "wall_s": t0.elapsed().as_secs_f64(),
+    });
+    let text = serde_json::to_string(&res).unwrap();
+    match out {
+        Some(f) => std::fs::write(f, text).unwrap(),
+        None => println!("{text}"),
     }
 }
